@@ -33,6 +33,9 @@ type scen struct {
 	KeepAlive  bool   `json:"keepalive"`
 	Disconnect bool   `json:"disconnect"`
 	Special    bool   `json:"special"` // payload strings containing framing look-alikes
+	// RawWS: payload values that contain raw JSON whitespace (line feeds), as marshalers built
+	// on json.Encoder (graphql.MarshalMap / MarshalAny, custom scalars) emit them
+	RawWS bool `json:"raw_whitespace,omitempty"`
 	// Pair: a second request ({name}) is served concurrently by the same server; both
 	// streams must be well-framed and carry their own payloads
 	Pair bool `json:"pair,omitempty"`
@@ -49,6 +52,8 @@ type inst struct {
 	lateWrites   int
 	disconnected bool
 }
+
+var rawSpecials = []string{"{\"k\":1}\n", "[1,\n 2]", "\"t\"\r\n"}
 
 var specials = []string{`"a\nb"`, `"data: x\r\n\r\n--graphql--"`, `"event: complete"`}
 
@@ -69,6 +74,9 @@ func (in *inst) Body() {
 		if in.sc.Special {
 			st.Raw = specials[call%len(specials)]
 		}
+		if in.sc.RawWS {
+			st.Raw = rawSpecials[call%len(rawSpecials)]
+		}
 		return st
 	}
 	if in.sc.Transport == "mixed" {
@@ -76,6 +84,9 @@ func (in *inst) Body() {
 			d := fmt.Sprintf(`{"inc":%d}`, i+1)
 			if in.sc.Special {
 				d = fmt.Sprintf(`{"inc":%s}`, specials[i%len(specials)])
+			}
+			if in.sc.RawWS {
+				d = fmt.Sprintf("{\"inc\":%s}", rawSpecials[i%len(rawSpecials)])
 			}
 			hs.Incremental = append(hs.Incremental, d)
 		}
@@ -417,7 +428,7 @@ func scenarios(tier string) []*explore.Scenario {
 	var out []*explore.Scenario
 	add := func(s scen) {
 		s2 := s
-		name := fmt.Sprintf("%s q=%s k=%d ka=%v dc=%v sp=%v", s.Transport, s.Query, s.Payloads, s.KeepAlive, s.Disconnect, s.Special)
+		name := fmt.Sprintf("%s q=%s k=%d ka=%v dc=%v sp=%v", s.Transport, s.Query, s.Payloads, s.KeepAlive, s.Disconnect, s.Special) + map[bool]string{true: " rawws", false: ""}[s.RawWS]
 		if s.Pair {
 			name += " pair"
 		}
@@ -445,6 +456,10 @@ func scenarios(tier string) []*explore.Scenario {
 			}
 		}
 	}
+	// payload contents with raw JSON whitespace
+	add(scen{Transport: "sse", Query: "subscription{s2}", Payloads: 2, RawWS: true})
+	add(scen{Transport: "sse", Query: "subscription{s2}", Payloads: 3, KeepAlive: true, RawWS: true})
+	add(scen{Transport: "mixed", Query: "{a name}", Payloads: 2, RawWS: true})
 	// two streams served concurrently by one server
 	add(scen{Transport: "sse", Query: "{a name}", Pair: true})
 	add(scen{Transport: "sse", Query: "subscription{s2}", Payloads: 1, Pair: true})
